@@ -83,6 +83,67 @@ theorem fragments_terminates (split : Bool) (rs : Nat) (hrs : 0 < rs) (data : By
     · obtain ⟨l, hl⟩ := chunks_some rs hrs (data.drop 1).length (data.drop 1) (by omega)
       exact ⟨data.take 1 :: l, by rw [hl]; rfl, by simp⟩
 
+/-- `recordSize` is a property that `_sendMsg` re-reads at every iteration, and an application may
+    assign it while an asynchronous write is suspended on a would-block.  Whatever sequence of
+    values `rs` is in force (`rs i` when record `i` of the write is cut): the fragments still
+    concatenate to the data — nothing lost or duplicated — record `i` is at most `rs i` long (the
+    limit in force when it was cut), the loop terminates when every value is positive, and with a
+    constant size it is `fragments`.  (Each iteration reads the size in its condition and its two
+    slices with nothing yielding in between; cutting the remainder after the suspended send would
+    break the first claim.) -/
+theorem fragments_varying_size (split : Bool) (rs : Nat → Nat) (data : Bytes) :
+    (∀ l, fragmentsVar split rs data = some l →
+        l.flatten = data ∧
+        ∀ j (hj : j < l.length), l[j].length ≤ (if split then (if j = 0 then 1 else rs j) else rs j)) ∧
+    ((∀ i, 0 < rs i) → ∃ l, fragmentsVar split rs data = some l) ∧
+    (∀ r, fragmentsVar split (fun _ => r) data = fragments split r data) := by
+  refine ⟨?_, ?_, ?_⟩
+  · intro l h
+    unfold fragmentsVar at h
+    cases split
+    · simp only [Bool.false_eq_true, if_false] at h ⊢
+      refine ⟨chunksVar_flatten rs _ _ _ _ h, fun j hj => ?_⟩
+      have := chunksVar_le rs _ 0 _ _ h j hj
+      simpa using this
+    · simp only [if_true] at h ⊢
+      split at h
+      · cases h; rename_i h0
+        simp at h0
+        refine ⟨?_, fun j hj => ?_⟩
+        · simp
+          exact List.take_of_length_le (by omega)
+        · have : j = 0 := by simpa using hj
+          subst this; simp; omega
+      · cases hc : chunksVar rs 1 (data.drop 1).length (data.drop 1) with
+        | none => rw [hc] at h; simp at h
+        | some l' =>
+          rw [hc] at h; simp only [Option.map_some, Option.some.injEq] at h; subst h
+          refine ⟨?_, fun j hj => ?_⟩
+          · rw [List.flatten_cons, chunksVar_flatten rs _ _ _ _ hc]
+            exact List.take_append_drop 1 data
+          · cases j with
+            | zero => simp; omega
+            | succ k =>
+              have := chunksVar_le rs _ 1 _ _ hc k (by simpa using hj)
+              have e : 1 + k = k + 1 := by omega
+              rw [e] at this
+              simpa using this
+  · intro hrs
+    unfold fragmentsVar
+    cases split
+    · simp only [Bool.false_eq_true, if_false]
+      have := hrs 0
+      exact chunksVar_some rs hrs data.length 0 data (by omega)
+    · simp only [if_true]
+      split
+      · exact ⟨_, rfl⟩
+      · have := hrs 1
+        obtain ⟨l, hl⟩ := chunksVar_some rs hrs (data.drop 1).length 1 (data.drop 1) (by omega)
+        exact ⟨data.take 1 :: l, by rw [hl]; rfl⟩
+  · intro r
+    unfold fragmentsVar fragments
+    simp only [chunksVar_const]
+
 /-! ## TLS 1.3 inner plaintext and the padding callback -/
 
 /-- Under the callback contract `padding_cb(len, type, max) ≤ max` (`max = send limit + 1 - len`,
@@ -208,6 +269,12 @@ theorem peer_limits_compatible (tls13 : Bool) (cset sset : Option Nat)
 
 /-! ## the stream: arbitrary interleavings of write / read(max, min) on both endpoints -/
 
+/-- the application never sets `recordSize` to 0 (the fragmentation loop would spin) -/
+def Op.Valid : Op → Prop
+  | .setSizeA n => 0 < n
+  | .setSizeB n => 0 < n
+  | _ => True
+
 /-- invariant of an honest connection: per direction, receiver in sync with the sender as of the
     oldest in-flight record, channel = protections of the pending fragments (in order), and
     delivered ++ buffered ++ pending = written; nothing failed, nobody closed -/
@@ -219,13 +286,14 @@ def FifoInv {Kab Kba : Codec} (SyncAB : Kab.SS → Kab.RS → Prop) (SyncBA : Kb
     c.deliveredB ++ c.b.buf ++ pendAB.flatten = c.writtenA ∧
     c.deliveredA ++ c.a.buf ++ pendBA.flatten = c.writtenB ∧
     c.failed = false ∧ c.a.closed = false ∧ c.b.closed = false ∧
-    0 < c.a.recordSize ∧ c.a.recordSize ≤ limAB ∧ 0 < c.b.recordSize ∧ c.b.recordSize ≤ limBA
+    0 < c.a.recordSize ∧ c.a.recordSize ≤ limAB ∧ 0 < c.b.recordSize ∧ c.b.recordSize ≤ limBA ∧
+    0 < c.a.sendLimit ∧ c.a.sendLimit ≤ limAB ∧ 0 < c.b.sendLimit ∧ c.b.sendLimit ≤ limBA
 
 theorem fifo_step {Kab Kba : Codec} (SyncAB : Kab.SS → Kab.RS → Prop) (SyncBA : Kba.SS → Kba.RS → Prop)
     (limAB limBA : Nat) (hab : Kab.Lawful SyncAB limAB) (hba : Kba.Lawful SyncBA limBA)
-    (c : Conn Kab Kba) (op : Op) (h : FifoInv SyncAB SyncBA limAB limBA c) :
+    (c : Conn Kab Kba) (op : Op) (hop : op.Valid) (h : FifoInv SyncAB SyncBA limAB limBA c) :
     FifoInv SyncAB SyncBA limAB limBA (step c op) := by
-  obtain ⟨pAB, pBA, dAB, dBA, eA, eB, hf, hca, hcb, ra0, ra1, rb0, rb1⟩ := h
+  obtain ⟨pAB, pBA, dAB, dBA, eA, eB, hf, hca, hcb, ra0, ra1, rb0, rb1, la0, la1, lb0, lb1⟩ := h
   cases op with
   | writeA d =>
     obtain ⟨fr, hfr, _⟩ := fragments_terminates c.a.split c.a.recordSize ra0 d
@@ -237,7 +305,7 @@ theorem fifo_step {Kab Kba : Codec} (SyncAB : Kab.SS → Kab.RS → Prop) (SyncB
     obtain ⟨w', rs, hp⟩ := protAll_total Kab SyncAB limAB hab fr c.a.wr hle
     have hw : epWrite Kab.prot c.a d = ({ c.a with wr := w' }, rs, .done) := by
       unfold epWrite; simp [hca, hfr, hp]
-    refine ⟨pAB ++ fr, pBA, ?_, ?_, ?_, ?_, ?_, ?_, ?_, ?_, ?_, ?_, ?_⟩ <;> simp only [step, hw]
+    refine ⟨pAB ++ fr, pBA, ?_, ?_, ?_, ?_, ?_, ?_, ?_, ?_, ?_, ?_, ?_, ?_, ?_, ?_, ?_⟩ <;> simp only [step, hw]
     · exact dAB.send fr hle w' rs hp
     · exact dBA
     · simp [← eA, fragments_concat _ _ _ _ hfr, List.append_assoc]
@@ -249,6 +317,10 @@ theorem fifo_step {Kab Kba : Codec} (SyncAB : Kab.SS → Kab.RS → Prop) (SyncB
     · exact ra1
     · exact rb0
     · exact rb1
+    · exact la0
+    · exact la1
+    · exact lb0
+    · exact lb1
   | writeB d =>
     obtain ⟨fr, hfr, _⟩ := fragments_terminates c.b.split c.b.recordSize rb0 d
     have hle : ∀ f ∈ fr, f.length ≤ limBA := by
@@ -259,7 +331,7 @@ theorem fifo_step {Kab Kba : Codec} (SyncAB : Kab.SS → Kab.RS → Prop) (SyncB
     obtain ⟨w', rs, hp⟩ := protAll_total Kba SyncBA limBA hba fr c.b.wr hle
     have hw : epWrite Kba.prot c.b d = ({ c.b with wr := w' }, rs, .done) := by
       unfold epWrite; simp [hcb, hfr, hp]
-    refine ⟨pAB, pBA ++ fr, ?_, ?_, ?_, ?_, ?_, ?_, ?_, ?_, ?_, ?_, ?_⟩ <;> simp only [step, hw]
+    refine ⟨pAB, pBA ++ fr, ?_, ?_, ?_, ?_, ?_, ?_, ?_, ?_, ?_, ?_, ?_, ?_, ?_, ?_, ?_⟩ <;> simp only [step, hw]
     · exact dAB
     · exact dBA.send fr hle w' rs hp
     · exact eA
@@ -271,10 +343,15 @@ theorem fifo_step {Kab Kba : Codec} (SyncAB : Kab.SS → Kab.RS → Prop) (SyncB
     · exact ra1
     · exact rb0
     · exact rb1
+    · exact la0
+    · exact la1
+    · exact lb0
+    · exact lb1
   | readA mx mn =>
     obtain ⟨cons, pend', hsplit, hdi, h3, h4, h5, h6, h7, h8, h9, h10⟩ :=
       readLoop_honest Kba SyncBA limBA hba Kab.prot mx mn c.b.wr c.ba pBA true c.a dBA hca
-    refine ⟨pAB, pend', ?_, ?_, ?_, ?_, ?_, ?_, ?_, ?_, ?_, ?_, ?_⟩ <;> simp only [step]
+    obtain ⟨h9, h9l⟩ := h9
+    refine ⟨pAB, pend', ?_, ?_, ?_, ?_, ?_, ?_, ?_, ?_, ?_, ?_, ?_, ?_, ?_, lb0, lb1⟩ <;> simp only [step]
     · rw [h6, h3]; simpa using dAB
     · exact hdi
     · exact eA
@@ -292,10 +369,21 @@ theorem fifo_step {Kab Kba : Codec} (SyncAB : Kab.SS → Kab.RS → Prop) (SyncB
     · rw [h9]; exact ra1
     · exact rb0
     · exact rb1
+    · rw [h9l]; exact la0
+    · rw [h9l]; exact la1
+  | setSizeA n =>
+    have hn : 0 < n := hop
+    refine ⟨pAB, pBA, dAB, dBA, eA, eB, hf, hca, hcb, ?_, ?_, rb0, rb1, la0, la1, lb0, lb1⟩ <;>
+      simp only [step, recordSize] <;> omega
+  | setSizeB n =>
+    have hn : 0 < n := hop
+    refine ⟨pAB, pBA, dAB, dBA, eA, eB, hf, hca, hcb, ra0, ra1, ?_, ?_, la0, la1, lb0, lb1⟩ <;>
+      simp only [step, recordSize] <;> omega
   | readB mx mn =>
     obtain ⟨cons, pend', hsplit, hdi, h3, h4, h5, h6, h7, h8, h9, h10⟩ :=
       readLoop_honest Kab SyncAB limAB hab Kba.prot mx mn c.a.wr c.ab pAB true c.b dAB hcb
-    refine ⟨pend', pBA, ?_, ?_, ?_, ?_, ?_, ?_, ?_, ?_, ?_, ?_, ?_⟩ <;> simp only [step]
+    obtain ⟨h9, h9l⟩ := h9
+    refine ⟨pend', pBA, ?_, ?_, ?_, ?_, ?_, ?_, ?_, ?_, ?_, ?_, ?_, la0, la1, ?_, ?_⟩ <;> simp only [step]
     · exact hdi
     · rw [h6, h3]; simpa using dBA
     · rw [← eA, hsplit]
@@ -313,32 +401,37 @@ theorem fifo_step {Kab Kba : Codec} (SyncAB : Kab.SS → Kab.RS → Prop) (SyncB
     · exact ra1
     · rw [h9]; exact rb0
     · rw [h9]; exact rb1
+    · rw [h9l]; exact lb0
+    · rw [h9l]; exact lb1
 
-/-- `stream_fifo`: for EVERY interleaving of `write` and `read(max, min)` operations on the two
-    endpoints, over any lawful record protection: per direction, what was delivered to the
+/-- `stream_fifo`: for EVERY interleaving of `write`, `read(max, min)` and `recordSize = n` (n > 0)
+    operations on the two endpoints, over any lawful record protection: per direction, what was delivered to the
     application, followed by what sits in the read buffer, followed by the plaintext of the records
     in flight (in order), is exactly what was written — nothing duplicated, reordered, invented or
     lost; no operation fails (no decrypt failure, no alert), nobody closes. -/
 theorem stream_fifo {Kab Kba : Codec} (SyncAB : Kab.SS → Kab.RS → Prop) (SyncBA : Kba.SS → Kba.RS → Prop)
     (limAB limBA : Nat) (hab : Kab.Lawful SyncAB limAB) (hba : Kba.Lawful SyncBA limBA)
-    (c0 : Conn Kab Kba) (h0 : FifoInv SyncAB SyncBA limAB limBA c0) (ops : List Op) :
+    (c0 : Conn Kab Kba) (h0 : FifoInv SyncAB SyncBA limAB limBA c0) (ops : List Op) (hops : ∀ op ∈ ops, op.Valid) :
     FifoInv SyncAB SyncBA limAB limBA (run c0 ops) := by
   unfold run
   induction ops generalizing c0 with
   | nil => exact h0
-  | cons op ops ih => exact ih (step c0 op) (fifo_step SyncAB SyncBA limAB limBA hab hba c0 op h0)
+  | cons op ops ih =>
+    exact ih (step c0 op) (fifo_step SyncAB SyncBA limAB limBA hab hba c0 op (hops op (by simp)) h0)
+      (fun o ho => hops o (by simp [ho]))
 
 /-- a freshly established connection (states in sync, channels and buffers empty) satisfies the invariant -/
 theorem fifo_init {Kab Kba : Codec} (SyncAB : Kab.SS → Kab.RS → Prop) (SyncBA : Kba.SS → Kba.RS → Prop)
     (limAB limBA : Nat) (a : Endpoint Kab.SS Kba.RS) (b : Endpoint Kba.SS Kab.RS)
     (hab : SyncAB a.wr b.rd) (hba : SyncBA b.wr a.rd) (ha : a.buf = [] ∧ a.closed = false)
     (hb : b.buf = [] ∧ b.closed = false)
-    (hra : 0 < a.recordSize ∧ a.recordSize ≤ limAB) (hrb : 0 < b.recordSize ∧ b.recordSize ≤ limBA) :
+    (hra : 0 < a.recordSize ∧ a.recordSize ≤ limAB) (hrb : 0 < b.recordSize ∧ b.recordSize ≤ limBA)
+    (hla : 0 < a.sendLimit ∧ a.sendLimit ≤ limAB) (hlb : 0 < b.sendLimit ∧ b.sendLimit ≤ limBA) :
     FifoInv SyncAB SyncBA limAB limBA
       { a := a, b := b, ab := [], ba := [], writtenA := [], writtenB := [], deliveredA := [],
         deliveredB := [], failed := false } :=
   ⟨[], [], ⟨a.wr, hab, rfl, by simp⟩, ⟨b.wr, hba, rfl, by simp⟩, by simp [hb.1], by simp [ha.1], rfl,
-    ha.2, hb.2, hra.1, hra.2, hrb.1, hrb.2⟩
+    ha.2, hb.2, hra.1, hra.2, hrb.1, hrb.2, hla.1, hla.2, hlb.1, hlb.2⟩
 
 /-- once a direction's channel has been drained and the buffer read out, delivered = written -/
 theorem stream_fifo_drained {Kab Kba : Codec} (SyncAB : Kab.SS → Kab.RS → Prop) (SyncBA : Kba.SS → Kba.RS → Prop)
@@ -420,6 +513,8 @@ example : fragments true 4 [1, 2, 3, 4, 5, 6, 7, 8, 9, 10] = some [[1], [2, 3, 4
 example : fragments true 4 [] = some [[]] := by decide
 example : fragments false 4 [1, 2, 3, 4] = some [[1, 2, 3, 4]] := by decide
 example : fragments false 0 [1] = none := by decide
+-- the record size raised from 2 to 5 while record 0 was being sent: record 1 onwards uses 5
+example : fragmentsVar false (fun i => if i = 0 then 2 else 5) [1, 2, 3, 4, 5, 6, 7, 8, 9] = some [[1, 2], [3, 4, 5, 6, 7], [8, 9]] := by decide
 example : negotiateLimits true (some 64) (some 16385) = (16384, 63, 63, 16384) := by decide
 
 /-- the identity codec (records in the clear) is lawful: `stream_fifo` is not vacuous -/
